@@ -578,6 +578,46 @@ def r8_symmetric_tests(ctx):
     ctx.floor('C17.R8', 'enums tested per side in the equivalence functions', n, 1)
 
 
+def r9_no_whole_value_shortcut(ctx):
+    ctx.rule('C17.R9', 'P1/P3: equivalence is decided by walking the two types part by part, because the walk is what registers every generic '
+             'parameter in the two id generators (the renaming must be a bijection over the WHOLE type). None of the equivalence functions '
+             'compares its two operands as wholes with `==` — `self == other => true` skips the registration for the parameters inside the shared '
+             'sub-term, after which `(Vec<T>, U)` is "equivalent" to `(Vec<T>, T)`. (The template relation has one documented shortcut of this '
+             'kind, `concrete == self`; the equivalence relation has none.)')
+    n = 0
+    for b in family_bodies(ctx, 'equivalence'):
+        if b.is_promoted or b.raw['argc'] < 2:
+            continue
+        n += 1
+        defs = Defs(b)
+
+        def whole_param(op):
+            pl = op_place(op)
+            for _ in range(8):
+                if pl is None or any(e != '*' for e in pl.get('p', [])):
+                    return None
+                if 1 <= pl['l'] <= b.raw['argc']:
+                    return pl['l']
+                ds = defs.full.get(pl['l'], [])
+                if len(ds) != 1 or 'rv' not in ds[0][2]:
+                    return None
+                rv = ds[0][2]['rv']
+                pl = rv.get('pl') if rv['k'] == 'ref' else (op_place(rv['op']) if rv['k'] == 'use' else None)
+            return None
+        for bb, t in b.calls():
+            c = callee(t) or ''
+            if c not in ('core::cmp::PartialEq::eq', 'core::cmp::PartialEq::ne') or len(t['args']) != 2:
+                continue
+            sides = {whole_param(t['args'][0]), whole_param(t['args'][1])}
+            if sides == {1, 2}:
+                ctx.ob('C17.R9', 'whole-operands-compared|%s' % b.nid.replace(T, ''), False, b.loc(bb, t),
+                       '%s compares `self` and `other` as wholes (%s): the verdict no longer comes from the walk that registers the generic parameters'
+                       % (b.nid.split('::')[-1], t['aty'][0]))
+    ctx.floor('C17.R9', 'equivalence functions with two operands', n, 2)
+    ctx.ob('C17.R9', 'no-whole-value-shortcut', not [o for o in ctx.obs if o.rule == 'C17.R9' and o.key.startswith('whole-operands') and not o.ok], '',
+           '%d equivalence function(s) scanned for `self == other`' % n)
+
+
 def check(ctx):
     r4_bindings_compared_by_equality(ctx)
     r5_no_shortcut_around_recursion(ctx)
@@ -587,3 +627,4 @@ def check(ctx):
     r3_canonical_constructor(ctx)
     r7_length_before_zip(ctx)
     r8_symmetric_tests(ctx)
+    r9_no_whole_value_shortcut(ctx)
